@@ -93,7 +93,8 @@ def run_case(c):
         if len(viol) < 10:
             viol.append(dict(kind=kind, msg=msg, **dict(feat, **kw)))
 
-    qs = np.array([rng.uniform(-0.5, 0.5, 3), [0.5, 0, 0], [0.25, 0.25, 0], rng.uniform(-0.5, 0.5, 3), [0.1, 0.0, 0.0]])
+    qs = np.array([rng.uniform(-0.5, 0.5, 3), [0.5, 0, 0], [0.25, 0.25, 0], rng.uniform(-0.5, 0.5, 3), [0.1, 0.0, 0.0],
+                   [0.21, 0.13, 0.5], [0.0, 0.0, 0.5], [0.5, 0.5, 0.5]])  # zone-face points: bands stick together there on non-symmorphic / hexagonal cells
     # reference: the dynamical-matrix object directly
     ref = {"D": [], "lam": []}
     for q in qs:
@@ -143,6 +144,22 @@ def run_case(c):
                         gv_ref = gv
                     elif np.abs(gv - gv_ref).max() > 1e-9 * max(np.abs(gv_ref).max(), 1e-12):
                         bad("group_velocity_option_dependent", "group velocities depend on the other requested outputs (%s): %.3e" % (opt, np.abs(gv - gv_ref).max()), options=opt)
+    # ---- the same request after an unrelated call that passed a direction (one GroupVelocity object serves all access paths): same answers
+    for d_ in ([1.0, 0.0, 0.0], [0.3, -0.2, 0.0]):
+        ph.run_qpoints(qs, with_group_velocities=True, nac_q_direction=d_)
+        ph.run_qpoints(qs, with_group_velocities=True)
+        gv2 = np.array(ph.get_qpoints_dict()["group_velocities"])
+        obs["n_gv_after_direction_call"] = obs.get("n_gv_after_direction_call", 0) + 1
+        if gv_ref is not None and np.abs(gv2 - gv_ref).max() > 1e-9 * max(np.abs(gv_ref).max(), 1e-12):
+            k = int(np.argmax(np.abs(gv2 - gv_ref).max(axis=(1, 2))))
+            bad("group_velocity_history_dependent", "group velocities at q=%s changed by %.3e after an unrelated run_qpoints(nac_q_direction=%s, with_group_velocities=True) call" % (
+                np.round(qs[k], 4).tolist(), np.abs(gv2 - gv_ref).max(), d_), direction=d_)
+            break
+        ph.run_band_structure([qs[[5, 6]]], with_group_velocities=True)
+        gvb = np.array(ph.get_band_structure_dict()["group_velocities"][0])
+        if gv_ref is not None and np.abs(gvb - gv_ref[[5, 6]]).max() > 1e-9 * max(np.abs(gv_ref).max(), 1e-12):
+            bad("group_velocity_history_dependent", "band-path group velocities at the zone face differ from run_qpoints by %.3e after a call that passed a direction" % np.abs(gvb - gv_ref[[5, 6]]).max(), direction=d_)
+            break
     # ---- single-q helpers
     for i, q in enumerate(qs[:3]):
         f1 = ph.get_frequencies(q)
